@@ -153,3 +153,64 @@ Proof.
   - destruct (in_iter (p ++ pre) s k) eqn:E; auto.
     apply in_iter_has_prefix in E. congruence.
 Qed.
+
+(* ---------- reflect.go: uniqKeys.Check accepts only pairwise incomparable prefixes ---------- *)
+
+Fixpoint pairwise_incomparable (keys : list key) : Prop :=
+  match keys with
+  | [] => True
+  | a :: r => Forall (fun b => has_prefix a b = false /\ has_prefix b a = false) r /\ pairwise_incomparable r
+  end.
+
+Lemma fold_min_le (r : list key) : forall n,
+  (fold_left (fun n k' => if (length k' <? n)%nat then length k' else n) r n <= n)%nat /\
+  Forall (fun k => (fold_left (fun n k' => if (length k' <? n)%nat then length k' else n) r n <= length k)%nat) r.
+Proof.
+  induction r as [|k r IH]; intros n; cbn [fold_left]; [split; [lia|constructor]|].
+  destruct (Nat.ltb_spec (length k) n) as [L|L].
+  - destruct (IH (length k)) as [H1 H2]. split; [lia|]. constructor; auto.
+  - destruct (IH n) as [H1 H2]. split; [lia|]. constructor; auto. lia.
+Qed.
+
+Lemma uniq_min_le keys : Forall (fun k => (uniq_min keys <= length k)%nat) keys.
+Proof.
+  destruct keys as [|k r]; [constructor|]. cbn [uniq_min].
+  destruct (fold_min_le r (length k)) as [H1 H2]. constructor; auto.
+Qed.
+
+Lemma firstn_prefix_eq L a b : (L <= length a)%nat -> has_prefix a b = true -> firstn L a = firstn L b.
+Proof.
+  intros HL H. apply has_prefix_spec in H as [s ->]. rewrite firstn_app.
+  replace (L - length a)%nat with O by lia. cbn. now rewrite app_nil_r.
+Qed.
+
+Lemma uniq_pairs_incomparable L keys : Forall (fun k => (L <= length k)%nat) keys ->
+  uniq_pairs_ok L keys = true -> pairwise_incomparable keys.
+Proof.
+  induction keys as [|a r IH]; intros F H; [exact I|].
+  inversion F as [|x l La Fr]; subst. cbn in H. apply andb_true_iff in H as [H1 H2].
+  split; [|now apply IH].
+  rewrite forallb_forall in H1. rewrite Forall_forall in *. intros b Hb.
+  specialize (H1 b Hb). specialize (Fr b Hb). apply negb_true_iff in H1.
+  split.
+  - destruct (has_prefix a b) eqn:E; auto.
+    rewrite (firstn_prefix_eq L a b La E) in H1. rewrite (proj2 (bytes_eqb_eq _ _) eq_refl) in H1. discriminate.
+  - destruct (has_prefix b a) eqn:E; auto.
+    rewrite (firstn_prefix_eq L b a Fr E) in H1. rewrite (proj2 (bytes_eqb_eq _ _) eq_refl) in H1. discriminate.
+Qed.
+
+Theorem uniq_check_sound keys : uniq_check keys = true -> pairwise_incomparable keys.
+Proof. intros H. eapply uniq_pairs_incomparable; [apply uniq_min_le|exact H]. Qed.
+
+(* the check is conservative: it may reject incomparable prefixes *)
+Example uniq_check_conservative :
+  uniq_check [[97; 98]; [97; 99]; [98]]%N = false /\ pairwise_incomparable [[97; 98]; [97; 99]; [98]]%N.
+Proof. split; [reflexivity|cbn; repeat split; repeat constructor]. Qed.
+
+Lemma incomparable_all_iff keys : incomparable_all keys = true <-> pairwise_incomparable keys.
+Proof.
+  induction keys as [|a r IH]; cbn; [tauto|].
+  rewrite andb_true_iff, IH, forallb_forall, Forall_forall. split; intros [H1 H2]; split; auto; intros b Hb.
+  - specialize (H1 b Hb). apply andb_true_iff in H1 as [Ha Hb']. apply negb_true_iff in Ha, Hb'. auto.
+  - destruct (H1 b Hb) as [Ha Hb']. now rewrite Ha, Hb'.
+Qed.
